@@ -1,6 +1,8 @@
 """C17 - Fixed-income strategies account by notional, coupons and carry"""
 from pyvc.runner import func
 
+UPDATE_ALL = [func("bt.core.StrategyBase.update", variant=v) for v in ("flat", "paper", "nested", "nested-paper")]
+
 ID = "C17"
 META = {
     "assumptions": ['A-REAL', 'A-COMM', 'A-T', 'A-IND', 'A-DATA-NONE', 'A-CYTHON', 'A-SOLVER', 'A-ENGINE'],
@@ -8,14 +10,14 @@ META = {
 }
 MANIFEST_ENTRY = {
     "level_text": "Deductive proof of the per-class notional/coupon/carry clauses and of update's fixed-income clauses for all inputs.",
-    "level_note": "Reals not floats; rebalance/transact fixed-income branches, SetNotional and the renormalised result are not yet under contract; update variant 'flat'.",
+    "level_note": "Reals not floats; rebalance/transact fixed-income branches, SetNotional and the renormalised result are not yet under contract.",
     "technique": "contract-based deductive verification: VCs from the real AST (pyvc) discharged by z3/cvc5; loop invariants with ghost sums; lemmas over contract clauses",
 }
 
 
 def tasks(tier, seed):
     return [
-        func("bt.core.StrategyBase.update", variant="flat"),
+        *UPDATE_ALL,
         func("bt.core.SecurityBase.update"),
         func("bt.core.FixedIncomeSecurity.update"),
         func("bt.core.CouponPayingSecurity.update"),
